@@ -270,6 +270,13 @@ def check_indent(run: Run, rule: str = "R01.4") -> None:
                         if isinstance(js, ast.JoinedStr) and var and any(isinstance(v, ast.FormattedValue) and isinstance(v.value, ast.Name) and v.value.id == var for v in js.values) and isinstance(js.values[0], ast.Constant):
                             lead = js.values[0].value
                             widths.append(len(lead) - len(lead.lstrip(" ")))
+                if not widths and var is None:
+                    # the text is handed on as a whole line (returned / appended / a list element), not formatted behind a prefix
+                    up = getattr(n, "_parent", None)
+                    while isinstance(up, (ast.List, ast.Tuple, ast.IfExp, ast.Starred)):
+                        up = getattr(up, "_parent", None)
+                    if isinstance(up, (ast.Return, ast.Expr)) or (isinstance(up, ast.Call) and isinstance(up.func, ast.Attribute) and up.func.attr in ("append", "extend")):
+                        widths = [0]
                 ok = bool(widths) and all(w == 2 * arg.value for w in widths)
                 run.instance(rule, em.loc(n), f"{fname}: {n.func.id}(indent={arg.value}) written behind {widths} leading spaces", ok=ok)
                 if not ok:
@@ -307,7 +314,8 @@ def check_trailing_comment(run: Run) -> None:
     run.rule("R01.6", "emit_assignment appends the trailing comment to the line that ends with the complete value text (after the closing bracket of a list), which is where collect_trailing_comment reads it; comments inside brackets are discarded by parse_list", 2)
     em = run.project.mod("core.emitter")
     fi = em.func("emit_assignment")
-    value_vars = {a.targets[0].id for a in walk_no_nested(fi.node) if isinstance(a, ast.Assign) and isinstance(a.targets[0], ast.Name) and isinstance(a.value, ast.Call) and _text(a.value.func) == "emit_value"}
+    # the local that holds the value's text: bound from emit_value(...) directly or through a quoting helper applied to it
+    value_vars = {a.targets[0].id for a in walk_no_nested(fi.node) if isinstance(a, ast.Assign) and isinstance(a.targets[0], ast.Name) and isinstance(a.value, ast.Call) and any(isinstance(c, ast.Call) and _text(c.func) == "emit_value" for c in ast.walk(a.value))}
     if not value_vars:
         raise AnalysisError("emit_assignment: value text variable not found")
     uses = [n for n in walk_no_nested(fi.node) if isinstance(n, ast.Call) and _text(n.func) == "_emit_trailing_comment"]
